@@ -169,6 +169,10 @@ def lift_native_constant(v):
         return type(v)(lift_native_constant(x) for x in v)
     if isinstance(v, dict):
         return {lift_native_constant(k): lift_native_constant(x) for k, x in v.items()}
+    import logging
+    if isinstance(v, logging.Logger):
+        from .values import SLogger
+        return SLogger(v.name)
     raise Unsupported(f"module-level constant of type {type(v).__name__}")
 
 
@@ -1127,6 +1131,11 @@ def get_attr(interp, obj, name, node):
             return "float"
         if name == "values":
             return obj
+        if name in ("shape", "size", "ndim"):
+            if obj.length is None:
+                obj.length = interp.run.fresh_int("vector_length")
+                interp.run._add(obj.length >= 0)
+            return (obj.length,) if name == "shape" else (obj.length if name == "size" else 1)
     raise Unsupported(f"attribute '{name}' of {type(obj).__name__}", node)
 
 
@@ -1194,12 +1203,12 @@ def _vec_copy(interp, recv, args, kwargs, node, frame):
     return SVec(recv.elem, recv.length)
 
 
-@method("idx", "flatten")
+@method("idx", "flatten", "ravel")
 def _idx_flatten(interp, recv, args, kwargs, node, frame):
     return recv
 
 
-@method("vec", "flatten")
+@method("vec", "flatten", "ravel")
 def _vec_flatten(interp, recv, args, kwargs, node, frame):
     return recv
 
